@@ -82,6 +82,24 @@ def dispatch_rule(L, R, frozen, tier):
                  key='%s:dispatch' % cname, witness={'m': bad[0][0]})
         else:
             R.ob('dispatch-differs-only-by-listed-pairs', subj, 'holds')
+    # a bound-specialised accelerated kernel is selected only inside the window on which it computes the reference function
+    from . import C14
+    try:
+        outside, ninst = C14.window_selections(L, [8, 16, 1024] if tier == 'quick' else [1 << k for k in range(3, 17)])
+    except (Unsupported, NeedEnum) as e:
+        R.broke('window sweep: %s' % e)
+        outside, ninst = [], 0
+    n += ninst
+    for k in sorted(C14.WINDOWS):
+        bad = [o for o in outside if o[2] == k]
+        if bad:
+            cname, cpu, _, m, b, lim = bad[0]
+            R.ob('accelerated-kernel-selected-only-where-it-equals-the-reference', k, 'refuted',
+                 detail='%s(m=%d, %s=%d) selects it; it equals the reference only up to %d (%s)' % (
+                     cname, m, C14.WINDOWS[k][0], b, lim, C14.WINDOWS[k][2]),
+                 key='%s:window' % k, witness={'m': m, C14.WINDOWS[k][0]: b, 'cpu': cpu})
+        else:
+            R.ob('accelerated-kernel-selected-only-where-it-equals-the-reference', k, 'holds')
     # the module table
     for mtype, nm in ((0, 'FFT64'), (1, 'NTT120')):
         for N in (2, 16, 64):
